@@ -174,7 +174,7 @@ func runEngine(t *testing.T, s *Scenario) (evs []wire.Event) {
 				hopsErr = herr.Error()
 			}
 			for _, h := range hs {
-				o := hopOut{TTL: h.TTL, RTTUs: int64(h.RTT*1000 + 0.5), Dest: h.IsDest}
+				o := hopOut{TTL: h.TTL, RTTUs: int64(h.RTT*1000 + 0.5), Dest: h.IsDest, Names: []string{}}
 				if len(h.IPAddress) > 0 {
 					a, _ := netip.AddrFromSlice(h.IPAddress)
 					o.Addr = a.String()
@@ -199,6 +199,3 @@ func runEngine(t *testing.T, s *Scenario) (evs []wire.Event) {
 	})
 	return evs
 }
-
-// RunParams is filled in by the multi-query runner.
-type RunParams struct{}
